@@ -263,7 +263,22 @@ class WT:
     def e_Call(self, f, e, env, depth):
         # spelled-out canonical forms
         fn = e.func
-        args = [self.ev(f, a, env, depth) for a in e.args if not isinstance(a, ast.Starred)]
+        args = []
+        for a in e.args:
+            if not isinstance(a, ast.Starred):
+                args.append(self.ev(f, a, env, depth))
+                continue
+            # f(*pair): a literal tuple is spliced in; so is the result of a package function that always returns a tuple
+            # of one known length (`*get_dataarray_resolution(raster)`)
+            sv = self.ev(f, a.value, env, depth)
+            if sv[0] == 'tuple':
+                args.extend(sv[1])
+            elif sv[0] == 'call' and isinstance(sv[1], str):
+                tf = next((c_.callee for c_ in self.calls if c_.result == sv and isinstance(c_.callee, Func)), None)
+                rets = [r_ for r_ in tf.own_nodes() if isinstance(r_, ast.Return)] if tf is not None else []
+                ns = {len(r_.value.elts) for r_ in rets if isinstance(r_.value, ast.Tuple)}
+                if rets and len(ns) == 1 and all(isinstance(r_.value, ast.Tuple) for r_ in rets):
+                    args.extend(('index', sv, ('const', i_)) for i_ in range(ns.pop()))
         kwargs = {k.arg: self.ev(f, k.value, env, depth) for k in e.keywords if k.arg}
         if isinstance(fn, ast.Attribute):
             recv = self.ev(f, fn.value, env, depth)
